@@ -98,7 +98,10 @@ def writer_mechanism(s, known):
         return
     for n in (1, 2, 3, 6) if quick else (1, 2, 3, 4, 5, 8, 16):
         m = s.drive("writer", binary=s.vinproc, args=["-n", str(n)])
-        s.validate(m, "WriterTrace", known=known, shard=max(10, len_records(m) // 4 + 1), constants={"N": n})
+        # what-level on the observed bytes (verdict) ...
+        s.validate(m, "WriterTrace", cfg="WriterTraceWhat.cfg", known=known, shard=max(10, len_records(m) // 4 + 1), constants={"N": n})
+        # ... and step-level conformance with the mechanism model (drift, not a verdict)
+        s.validate(m, "WriterTrace", known=known, shard=max(10, len_records(m) // 4 + 1), constants={"N": n}, drift=True)
         if n == 2:
             def corrupt(rec):
                 ev = rec["events"][len(rec["events"]) // 2]
@@ -113,7 +116,7 @@ def play_mechanism(s, known):
     if not s.inproc_ok:
         return
     m = s.drive("play", binary=s.vinproc)
-    s.validate(m, "PlayTrace", known=known, shard=max(10, len_records(m) // 8 + 1))
+    s.validate(m, "PlayTrace", known=known, shard=max(10, len_records(m) // 8 + 1), drift=True)
 
     def corrupt(rec):
         for c in rec["calls"]:
@@ -173,7 +176,7 @@ def C04(s, known):
     if s.inproc_ok:
         # the real lexer, token by token, against the mode machine of Lexer.tla (spans and mode flags through the verif hooks)
         ml = s.drive("lexer", binary=s.vinproc)
-        s.validate(ml, "LexerTrace", known=known, shard=max(200, len_records(ml) // 12 + 1))
+        s.validate(ml, "LexerTrace", known=known, shard=max(200, len_records(ml) // 12 + 1), drift=True)
 
         def corrupt(rec):
             for r in [rec]:
@@ -241,7 +244,7 @@ def C12(s, known):
             s.model("IterVisitor", cfg="IterVisitorMC.cfg", workers=2, constants={"N": 6, "Cap": cap, "StopAt": stop})
     if s.inproc_ok:
         mi = s.drive("iter", binary=s.vinproc)
-        s.validate(mi, "IterTrace", known=known, shard=max(20, len_records(mi) // 8 + 1))
+        s.validate(mi, "IterTrace", known=known, shard=max(20, len_records(mi) // 8 + 1), drift=True)
     m = s.drive("c12")
     s.validate(m, "C12Trace", known=known, shard=1000)
     return dict(level="model_checking",
